@@ -177,8 +177,8 @@ def tx_cases(draw, max_in=4, max_out=4, allow_junk=True, allow_coinbase=True, bi
         else:
             prev = draw(st.binary(min_size=32, max_size=32).filter(lambda b: b != bytes(32))).hex()
             n = draw(st.one_of(st.sampled_from([0, 1, 0xfffe, 0xffff, 0xfffffffe]), st.integers(0, 0xffffffff)))
-            kind = draw(st.sampled_from(['p2pkh', 'p2sh_ms', 'native', 'native', 'nested', 'nested', 'any', 'empty'] +
-                                        (['exotic'] if exotic else [])))
+            kind = draw(st.sampled_from(['p2pkh', 'p2sh_ms', 'native', 'native', 'nested', 'nested', 'any', 'empty',
+                                         'one_byte'] + (['exotic'] if exotic else [])))
             wit = []
             if kind == 'p2pkh':
                 ss = draw(p2pkh_scriptsig())
@@ -201,6 +201,9 @@ def tx_cases(draw, max_in=4, max_out=4, allow_junk=True, allow_coinbase=True, bi
                 ss = wire.push_data(redeem)
                 if not segwit:
                     wit = []
+            elif kind == 'one_byte':
+                # a scriptSig of one byte (00 = the empty push, an opcode): well-formed, seen on chain
+                ss = draw(st.sampled_from([b'\x00', b'\x00', b'\x51', b'\x4f', b'\x61']))
             elif kind == 'any':
                 ss = draw(any_script(allow_junk))
             elif kind == 'exotic':
